@@ -215,11 +215,11 @@ write, one account entry) and a history that writes to it, stages a second contr
 an inner snapshot and writes again. -/
 example :
     let st : Storage := (Storage.new [(0, 5)]).setData 1 7
-    let s0 : SDB := ((SDB.new []).putState 4 ⟨1, []⟩).stage 2 st
+    let s0 : SDB := ((SDB.new []).putState 4 { nonce := 1, sroot := [] }).stage 2 st
     let inner : BlockSnap := ⟨2, [(2, 2)]⟩
     ∃ s', SDB.run s0.blockSnapshot s0
-        [.putState 4 ⟨2, []⟩, .setData 2 0 9, .stageNew 3 [] [(1, some 8)], .deleteData 2 1,
-         .rollback inner, .putState 5 ⟨3, []⟩] = some s' ∧
+        [.putState 4 { nonce := 2, sroot := [] }, .setData 2 0 9, .stageNew 3 [] [(1, some 8)], .deleteData 2 1,
+         .rollback inner, .putState 5 { nonce := 3, sroot := [] }] = some s' ∧
       s'.blockRollback s0.blockSnapshot = some s0 := by
   refine ⟨_, rfl, ?_⟩
   decide
